@@ -582,8 +582,8 @@ func collapse(lines []string) []string {
 func collapseTokens(s string) string {
 	var toks []string
 	for _, t := range strings.Fields(s) {
-		if t == "&&" {
-			continue // conjunctions over all parameters: x != nil && x != nil
+		if t == "&&" || t == "||" {
+			continue // conjunctions/disjunctions over all parameters: x != nil && x != nil, x == nil || x == nil
 		}
 		toks = append(toks, strings.TrimRight(t, ","))
 	}
